@@ -243,8 +243,22 @@ def shard(ctx):
         docs = json.dumps(doc)
         ty = rng.choice(gen.TYPES)
         rv = rng.choice(list(doc["Resources"].values())) if hasres else {}
+        if hasres and rng.random() < 0.7:
+            # several resources of the block's type whose bodies can come out differently (PASS / SKIP / FAIL per resource)
+            ty = rv.get("Type") if isinstance(rv.get("Type"), str) else ty
+            for r_ in doc["Resources"].values():
+                if isinstance(r_, dict) and rng.random() < 0.7:
+                    r_["Type"] = ty
+            docs = json.dumps(doc)
         env = {"refs": [], "vars": [], "prules": [], "allow_ref": False}
         body = gen.gen_cnf(rng, rv, o2, 1, env, maxlines=3)
+        pk = sorted(rv.get("Properties", {})) if isinstance(rv.get("Properties"), dict) else []
+        if pk and rng.random() < 0.5:
+            # the body applies only to resources that have a given property: SKIP for the others
+            k_ = rng.choice(pk)
+            guard = [[gen.clause([["key", "Properties"], ["key", k_]], rng.choice(["exists", "is_string", "is_int"]), None)]]
+            body = [[{"t": "when", "cond": guard, "lets": [], "body": body}]]
+            ctx.res.counts["typeblock:guarded-body"] += 1
         cond = gen.gen_cond(rng, doc, o2, 0, env) if rng.random() < 0.3 else None
         tb = {"t": "type", "type": ty, "cond": cond, "lets": [], "body": body}
         blk = {"t": "block", "some": False, "q": [["key", "Resources"], ["all"], ["filter", [[gen.clause([["key", "Type"]], "==", ["lit", ty])]]]],
